@@ -11,7 +11,7 @@ from vf.ref import hashing
 
 ID = "C01"
 LEVEL = "exploration"
-TECHNIQUE = "Hypothesis-generated trees x piece lengths x routes (+ exhaustive boundary grid) against an independent BEP 3 reference hashing of the written metafile"
+TECHNIQUE = "Hypothesis-generated trees x piece lengths x routes (+ exhaustive boundary grid) against an independent BEP 3 reference hashing of the written metafile ; optional second act (one file rewritten in place, same process creates again)"
 RULE = ("Cases: generated content tree (1..8 files, quick; sizes biased to 0,1,k*16KiB+-2,k*P+-2, tiny) x piece length "
         "(2^14..2^16 quick, ..2^18 thorough, or automatic) x how P is spelled (int/exponent/str) x route (TorrentFile "
         "library call / CLI create --meta-version 1) x progress mode; plus an enumerated boundary grid. Non-trivial: "
